@@ -966,7 +966,7 @@ def teardown(ctx):
 
 
 def plan(tier):
-    m = 1 if tier == 'quick' else 100
+    m = 1 if tier == 'quick' else 50
     p = []
     for name in ri.ROOTS:
         for lay in LAYOUTS:
